@@ -20,6 +20,15 @@ Proof.
   intros H. apply andb_true_iff in H as [H1 H2]. rewrite H1. cbn. eauto.
 Qed.
 
+Lemma has_prefix_true (s p : str) : has_prefix s p = true <-> exists t, s = p ++ t.
+Proof.
+  split.
+  - revert s; induction p as [|x p IH]; intros s H; [exists s; reflexivity|].
+    destruct s as [|y s]; [discriminate|]. cbn [has_prefix] in H. apply andb_true_iff in H as [H1 H2].
+    apply Z.eqb_eq in H1. subst y. destruct (IH _ H2) as (t & ->). exists t. reflexivity.
+  - intros (t & ->). induction p as [|x p IH]; [cbn [app]; destruct t; reflexivity|]. cbn [has_prefix app]. rewrite Z.eqb_refl. exact IH.
+Qed.
+
 (* ---------------------------------------------------------------- decode *)
 
 Lemma decode_width s r w : s <> [] -> Utf8.decode s = (r, w) -> (1 <= w <= length s)%nat.
@@ -245,7 +254,8 @@ Qed.
 
 Lemma read_rune_spec data st r st' : linv data st -> read_rune st = Some (r, st') ->
   linv data st' /\ (rem_len st' < rem_len st)%nat /\
-  exists w, Utf8.decode (ls_rem st) = (r, w) /\ ls_rem st' = skipn w (ls_rem st) /\ ls_rem st <> [].
+  exists w, Utf8.decode (ls_rem st) = (r, w) /\ ls_rem st' = skipn w (ls_rem st) /\ ls_rem st <> [] /\
+            p_byte (ls_pos st') = p_byte (ls_pos st) + Z.of_nat w.
 Proof.
   intros [Hp Hd]. unfold read_rune, rem_len.
   destruct (ls_rem st) as [|c t] eqn:E; [discriminate|]. rewrite <- E in *.
@@ -258,7 +268,7 @@ Proof.
   - cbn [ls_rem ls_pos ls_done]. apply (at_next data _ _ _ _ Hp Hne Hdec).
   - cbn [ls_rem ls_pos ls_done]. rewrite rev_append_rev, rev_app_distr, rev_involutive, <- app_assoc, firstn_skipn. exact Hd.
   - cbn [ls_rem]. rewrite skipn_length. lia.
-  - exists w. cbn [ls_rem]. auto.
+  - exists w. cbn [ls_rem ls_pos]. repeat split; auto. destruct (r0 =? 10); reflexivity.
 Qed.
 
 Lemma peek_rune_decode st : ls_rem st <> [] -> peek_rune st = fst (Utf8.decode (ls_rem st)).
@@ -292,7 +302,8 @@ Qed.
 Record tok_ok (data : str) (t : token) : Prop := mkTokOk {
   tk_pos : exists rest, at_pos data rest (t_pos t) /\ has_prefix rest (t_text t) = true;
   tk_end : valid_pos data (t_end t);
-  tk_le : p_byte (t_pos t) <= p_byte (t_end t)
+  tk_le : p_byte (t_pos t) <= p_byte (t_end t);
+  tk_punct : forall c, t_kind t = KPunct c -> t_text t = [c]
 }.
 
 Lemma linv_byte data st : linv data st -> p_byte (ls_pos st) = Z.of_nat (length data) - Z.of_nat (rem_len st).
@@ -302,20 +313,29 @@ Proof.
 Qed.
 
 Lemma end_token_ok data k st0 st :
-  linv data st0 -> linv data st -> (rem_len st <= rem_len st0)%nat -> tok_ok data (end_token k st0 st).
+  linv data st0 -> linv data st -> (rem_len st <= rem_len st0)%nat ->
+  (forall c, k = KPunct c -> exists t, ls_rem st0 = c :: t /\ p_byte (ls_pos st) = p_byte (ls_pos st0) + 1) ->
+  tok_ok data (end_token k st0 st).
 Proof.
-  intros H0 H1 Hle. pose proof (linv_byte _ _ H0). pose proof (linv_byte _ _ H1).
-  destruct H0 as [Hp0 _], H1 as [Hp1 _]. constructor; cbn [end_token t_pos t_end t_text].
+  intros H0 H1 Hle Hpu. pose proof (linv_byte _ _ H0). pose proof (linv_byte _ _ H1).
+  destruct H0 as [Hp0 _], H1 as [Hp1 _]. constructor; cbn [end_token t_pos t_end t_text t_kind].
   - exists (ls_rem st0). split; [exact Hp0|].
     destruct (is_comment_kind k); [apply has_prefix_strip|]; apply has_prefix_firstn.
   - exists (ls_rem st). exact Hp1.
   - lia.
+  - intros c ->. destruct (Hpu c eq_refl) as (t & E & Hb). rewrite E, Hb.
+    replace (p_byte (ls_pos st0) + 1 - p_byte (ls_pos st0)) with 1 by lia. reflexivity.
 Qed.
+
+Lemma not_punct_kind k : (forall c, k <> KPunct c) ->
+  forall (st0 st : lstate) c, k = KPunct c -> exists t, ls_rem st0 = c :: t /\ p_byte (ls_pos st) = p_byte (ls_pos st0) + 1.
+Proof. intros H st0 st c E. destruct (H c E). Qed.
 
 (* the outcome of reading one token from a state with at most [n] remaining bytes *)
 Definition good (data : str) (n : nat) (res : tok_result) : Prop :=
   match res with
-  | TTok t st' => linv data st' /\ (rem_len st' <= n)%nat /\ tok_ok data t /\ t_end t = ls_pos st'
+  | TTok t st' => linv data st' /\ (rem_len st' <= n)%nat /\ tok_ok data t /\ t_end t = ls_pos st' /\
+                  is_eof (t_kind t) = false
   | TErr p _ => valid_pos data p
   | TPanic | TFuel => False
   end.
@@ -335,8 +355,8 @@ Proof.
   - destruct (read_rune_some st) as (r & st1 & Hr); [rewrite E; discriminate|]. rewrite Hr.
     destruct (read_rune_spec _ _ _ _ Hi Hr) as (Hi1 & Hlt & _).
     destruct (r =? 10).
-    + exists st1. repeat split; auto; lia.
-    + destruct (IH st1 Hi1) as (st' & E' & Hi' & Hle); [lia|]. exists st'. repeat split; auto; lia.
+    + exists st1. split; [reflexivity|split; [exact Hi1|lia]].
+    + destruct (IH st1 Hi1) as (st' & E' & Hi' & Hle); [lia|]. exists st'. split; [exact E'|split; [exact Hi'|lia]].
 Qed.
 
 Lemma string_body_good data q st0 : linv data st0 -> forall f st, linv data st ->
@@ -349,7 +369,7 @@ Proof.
   apply eof_false in Ee. destruct (read_rune_some st Ee) as (c & st1 & Hr). rewrite Hr.
   destruct (read_rune_spec _ _ _ _ Hi Hr) as (Hi1 & Hlt & _).
   destruct (c =? q).
-  { cbn. repeat split; auto; try lia. apply end_token_ok; auto; lia. }
+  { cbn. split; [exact Hi1|split; [lia|split; [apply end_token_ok; auto; [lia|apply not_punct_kind; discriminate]|split; reflexivity]]]. }
   destruct ((c =? 92) && negb (q =? 96)).
   - destruct (eof st1) eqn:Ee1; [cbn; apply linv_valid; exact H0|].
     destruct (peek_rune st1 =? 10); [cbn; apply linv_valid; exact Hi1|].
@@ -359,22 +379,154 @@ Proof.
   - eapply good_weaken; [|apply IH; auto; lia]. lia.
 Qed.
 
+Lemma is_ident_0 : is_ident 0 = false.
+Proof. vm_compute. reflexivity. Qed.
+
 Lemma ident_body_good data st0 : linv data st0 -> forall f st, linv data st ->
   (rem_len st <= rem_len st0)%nat -> (rem_len st + 1 <= f)%nat ->
   good data (rem_len st) (ident_body f st0 st).
 Proof.
   intros H0. induction f as [|f IH]; intros st Hi Hle Hf; [lia|]. cbn [ident_body].
   assert (Hdone : good data (rem_len st) (TTok (end_token KIdent st0 st) st)).
-  { cbn. repeat split; auto. apply end_token_ok; auto. }
-  destruct (is_ident (peek_rune st)); [|exact Hdone].
+  { cbn. split; [exact Hi|split; [lia|split; [apply end_token_ok; auto; apply not_punct_kind; discriminate|split; reflexivity]]]. }
+  destruct (is_ident (peek_rune st)) eqn:Eid; [|exact Hdone].
   destruct (peek_prefix st [47; 47]); [exact Hdone|].
   destruct (peek_prefix st [47; 42]); [cbn; apply linv_valid; exact Hi|].
   destruct (read_rune st) as [[c st1]|] eqn:Hr.
   - destruct (read_rune_spec _ _ _ _ Hi Hr) as (Hi1 & Hlt & _).
     eapply good_weaken; [|apply IH; auto; lia]. lia.
-  - (* peek_rune = 0 at EOF and 0 is not an identifier rune: handled by computation *)
-    apply read_rune_none in Hr. exfalso.
-    revert Hr. unfold peek_prefix. destruct (ls_rem st); [|discriminate]. intros _.
-    clear -Hle. (* unreachable only because is_ident 0 = false; recover it *)
-    exact (False_ind _ (Nat.nle_succ_0 _ (Nat.le_0_l _) |> fun _ => ltac:(fail))).
+  - apply read_rune_none in Hr. unfold peek_rune in Eid. rewrite Hr in Eid.
+    rewrite is_ident_0 in Eid. discriminate.
+Qed.
+
+Lemma is_punct_small c : is_punct c = true -> c < 128.
+Proof. unfold is_punct. lia. Qed.
+
+(* the outcome of readToken: as [good], and a token other than EOF consumes input *)
+Definition goodp (data : str) (st : lstate) (res : tok_result) : Prop :=
+  match res with
+  | TTok t st' => linv data st' /\ tok_ok data t /\ t_end t = ls_pos st' /\
+                  (is_eof (t_kind t) = true -> ls_rem st' = [] /\ (rem_len st' <= rem_len st)%nat) /\
+                  (is_eof (t_kind t) = false -> (rem_len st' < rem_len st)%nat)
+  | TErr p _ => valid_pos data p
+  | TPanic | TFuel => False
+  end.
+
+Lemma good_goodp data st n res : (n < rem_len st)%nat -> good data n res -> goodp data st res.
+Proof.
+  destruct res; cbn; auto. intros Hn (Hi & Hle & Hok & He & Hk).
+  split; [exact Hi|]. split; [exact Hok|]. split; [exact He|].
+  split; [intros E; congruence | intros _; lia].
+Qed.
+
+Lemma read_main_good data f st : linv data st -> peek_prefix st [47; 47] = false ->
+  (rem_len st + 1 <= f)%nat -> goodp data st (read_main f st).
+Proof.
+  intros Hi Hss Hf. unfold read_main.
+  destruct (eof st) eqn:Ee.
+  { apply eof_true in Ee. cbn. split; [exact Hi|]. split.
+    - apply end_token_ok; auto. apply not_punct_kind; discriminate.
+    - split; [reflexivity|]. split; [auto|discriminate]. }
+  apply eof_false in Ee. destruct (read_rune_some st Ee) as (c0 & st1 & Hr).
+  destruct (read_rune_spec _ _ _ _ Hi Hr) as (Hi1 & Hlt & w & Hdec & Hrem & _ & Hb).
+  assert (Hpk : peek_rune st = c0) by (rewrite peek_rune_decode, Hdec; auto).
+  rewrite Hpk, Hr.
+  destruct (is_punct c0) eqn:Ep.
+  { cbn. split; [exact Hi1|]. split.
+    - apply end_token_ok; auto; [lia|]. intros c [= <-].
+      destruct (decode_small _ _ _ Ee Hdec (is_punct_small _ Ep)) as (-> & t & E).
+      exists t. split; [exact E|]. rewrite Hb. reflexivity.
+    - split; [reflexivity|]. split; [discriminate|]. intros _. exact Hlt. }
+  destruct ((c0 =? 34) || (c0 =? 96)).
+  { eapply good_goodp; [|apply string_body_good; auto; lia]. exact Hlt. }
+  destruct (is_ident c0) eqn:Eid; cbn [negb]; [|cbn; apply linv_valid; exact Hi].
+  (* the first round of the identifier loop consumes a rune *)
+  destruct f as [|f]; [lia|]. cbn [ident_body]. rewrite Hpk, Eid, Hss.
+  destruct (peek_prefix st [47; 42]); [cbn; apply linv_valid; exact Hi|].
+  rewrite Hr. eapply good_goodp; [|apply ident_body_good; auto; lia]. exact Hlt.
+Qed.
+
+Lemma read_comment_good data f st : linv data st -> peek_prefix st [47; 47] = true ->
+  (rem_len st + 1 <= f)%nat -> goodp data st (read_comment f st).
+Proof.
+  intros Hi Hss Hf. unfold read_comment.
+  unfold peek_prefix in Hss. apply has_prefix_true in Hss as (t0 & E0). cbn [app] in E0.
+  assert (Ee : ls_rem st <> []) by (rewrite E0; discriminate).
+  destruct (read_rune_some st Ee) as (c0 & st1 & Hr). rewrite Hr.
+  destruct (read_rune_spec _ _ _ _ Hi Hr) as (Hi1 & Hlt & w & Hdec & Hrem & _).
+  (* the second slash *)
+  assert (Ee1 : ls_rem st1 <> []).
+  { rewrite E0 in Hdec. rewrite decode_ascii_head in Hdec by lia. injection Hdec as <- <-.
+    rewrite Hrem, E0. cbn. discriminate. }
+  destruct (read_rune_some st1 Ee1) as (c1 & st2 & Hr2). rewrite Hr2.
+  destruct (read_rune_spec _ _ _ _ Hi1 Hr2) as (Hi2 & Hlt2 & _).
+  destruct (comment_body_good data f st2 Hi2) as (st3 & E3 & Hi3 & Hle3); [lia|]. rewrite E3.
+  cbn. split; [exact Hi3|]. split.
+  - apply end_token_ok; auto; [lia|]. apply not_punct_kind. destruct (has_non_space _); discriminate.
+  - split; [reflexivity|]. split.
+    + destruct (has_non_space _); discriminate.
+    + intros _. lia.
+Qed.
+
+Lemma goodp_weaken data st st1 res : (rem_len st1 < rem_len st)%nat -> goodp data st1 res -> goodp data st res.
+Proof.
+  destruct res; cbn; auto. intros Hlt (Hi & Hok & He & H1 & H2).
+  split; [exact Hi|]. split; [exact Hok|]. split; [exact He|]. split.
+  - intros E. destruct (H1 E). split; [auto|lia].
+  - intros E. specialize (H2 E). lia.
+Qed.
+
+Lemma read_token_good data : forall f st, linv data st -> (rem_len st + 2 <= f)%nat ->
+  goodp data st (read_token f st).
+Proof.
+  induction f as [|f IH]; intros st Hi Hf; [lia|]. cbn [read_token].
+  destruct (eof st) eqn:Ee.
+  { apply read_main_good; auto; [|lia]. apply eof_true in Ee. unfold peek_prefix. rewrite Ee. reflexivity. }
+  destruct ((peek_rune st =? 32) || (peek_rune st =? 9) || (peek_rune st =? 13)).
+  { apply eof_false in Ee. destruct (read_rune_some st Ee) as (c0 & st1 & Hr). rewrite Hr.
+    destruct (read_rune_spec _ _ _ _ Hi Hr) as (Hi1 & Hlt & _).
+    eapply goodp_weaken; [exact Hlt|]. apply IH; auto. lia. }
+  destruct (peek_prefix st [47; 47]) eqn:Ess.
+  { apply read_comment_good; auto. lia. }
+  destruct (peek_prefix st [47; 42]); [cbn; apply linv_valid; exact Hi|].
+  apply read_main_good; auto. lia.
+Qed.
+
+(* how a token list and its end fit together *)
+Definition ends_ok (ts : list token) (e : lex_end) : Prop :=
+  match e with
+  | LEnd => exists ts' t, ts = ts' ++ [t] /\ is_eof (t_kind t) = true
+  | LErr _ _ => True
+  | LPanic | LFuel => False
+  end.
+
+Definition lex_ok (data : str) (ts : list token) (e : lex_end) : Prop :=
+  Forall (tok_ok data) ts /\ ends_ok ts e /\
+  match e with LErr p _ => valid_pos data p | _ => True end.
+
+Lemma lex_all_good data : forall f st acc, linv data st -> (rem_len st + 3 <= f)%nat ->
+  Forall (tok_ok data) acc ->
+  lex_ok data (fst (lex_all f st acc)) (snd (lex_all f st acc)).
+Proof.
+  induction f as [|f IH]; intros st acc Hi Hf Hacc; [lia|]. cbn [lex_all].
+  pose proof (read_token_good data f st Hi) as Hg. specialize (Hg ltac:(lia)).
+  destruct (read_token f st) as [t st'|p e| |]; cbn in Hg; try contradiction.
+  - destruct Hg as (Hi' & Hok & He & H1 & H2).
+    destruct (is_eof (t_kind t)) eqn:Ek.
+    + cbn [fst snd]. rewrite frev_rev. cbn [rev]. split; [|split; [|exact I]].
+      * apply Forall_app. split; [apply Forall_rev; exact Hacc | constructor; [exact Hok|constructor]].
+      * exists (rev acc), t. auto.
+    + apply IH; auto. specialize (H2 eq_refl). lia.
+  - cbn [fst snd]. rewrite frev_rev. split; [apply Forall_rev; exact Hacc|]. split; [exact I|exact Hg].
+Qed.
+
+Theorem lex_good data : lex_ok data (fst (lex data)) (snd (lex data)).
+Proof.
+  unfold lex. apply lex_all_good; [apply linv_init | unfold rem_len, lex_fuel, init_state; cbn; lia | constructor].
+Qed.
+
+(* the lexer never faults and never runs out of fuel *)
+Corollary lex_total data : snd (lex data) <> LPanic /\ snd (lex data) <> LFuel.
+Proof.
+  destruct (lex_good data) as (_ & He & _). destruct (snd (lex data)); cbn in He; try contradiction; split; discriminate.
 Qed.
